@@ -98,8 +98,42 @@ theorem stale_removeByPeer {s : Inflight} (peer : Nat) {x : Blk}
     exact hn ⟨st, List.mem_filter.mpr ⟨hst, hm'.2⟩⟩
 
 theorem stale_removeByBlock {s : Inflight} (now : Nat) (b : Blk) {x : Blk}
-    (h : Stale (removeByBlock s now b).1 x) : Stale s x ∨ (x = b ∧ Untracked s b) := by
+    (h : Stale (removeByBlock s now b).1 x) : Stale s x := by
   unfold removeByBlock at h
+  cases hf : s.states.find? (fun e => e.1 == b) with
+  | none => simpa only [hf] using h
+  | some e =>
+    have he := find_state hf
+    obtain ⟨b', st⟩ := e
+    have hb' : b' = b := (Prod.mk.inj he).1
+    subst hb'
+    simp only [hf] at h
+    -- in both branches: states and trace lose exactly the key `b'`
+    have key : ∀ (s' : Inflight), s'.states = s.states.filter (fun e => e.1 != b') →
+        s'.trace = s.trace.filter (fun t => t.1 != b') → Stale s' x → Stale s x := by
+      intro s' e1 e2 hs
+      obtain ⟨⟨ts, hm⟩, hn⟩ := hs
+      rw [e2] at hm
+      have hm' := List.mem_filter.mp hm
+      have hx : x ≠ b' := by simpa using hm'.2
+      refine ⟨⟨ts, hm'.1⟩, ?_⟩
+      rintro ⟨st', hst'⟩
+      apply hn
+      refine ⟨st', ?_⟩
+      rw [e1]
+      exact List.mem_filter.mpr ⟨hst', by simpa using hx⟩
+    cases hsf : s.scheds.find? (fun e => e.1 == st.peer) with
+    | none =>
+      simp only [hsf] at h
+      exact key _ rfl rfl h
+    | some sce =>
+      simp only [hsf] at h
+      exact key _ rfl rfl h
+
+/-- the pre-4f3b7cd function: a stale mark appears only for `b` itself, arriving from an evicted peer -/
+theorem stale_removeByBlockPreF23 {s : Inflight} (now : Nat) (b : Blk) {x : Blk}
+    (h : Stale (removeByBlockPreF23 s now b).1 x) : Stale s x ∨ (x = b ∧ Untracked s b) := by
+  unfold removeByBlockPreF23 at h
   cases hf : s.states.find? (fun e => e.1 == b) with
   | none => left; simpa only [hf] using h
   | some e =>
@@ -312,7 +346,7 @@ theorem Inv2.removeByBlock {s : Inflight} (h : Inv2 s) (now : Nat) (b : Blk) :
     obtain ⟨b', st⟩ := e
     simp only []
     cases hsf : s.scheds.find? (fun e => e.1 == st.peer) with
-    | none => exact ⟨h.traceNodup, h.taskLe, h.timeoutLe, h.windowLen, h.windowIdx⟩
+    | none => exact ⟨nodup_keys_filter h.traceNodup _, h.taskLe, h.timeoutLe, h.windowLen, h.windowIdx⟩
     | some sce =>
       simp only []
       have counts : ∀ p sc', (p, sc') ∈ updSched s.scheds st.peer
